@@ -33,6 +33,10 @@ type VerifAuxState struct {
 	// primary of methods[defaultKey].
 	Default     string
 	DefaultLive bool
+	// MethodDocTypes: key -> the '|'-joined Type fields of the required
+	// arguments in the table entry's Doc (what remove-method rebuilds its key
+	// from).
+	MethodDocTypes map[string]string
 }
 
 // VerifCombo describes one *slip.Combination.
@@ -83,6 +87,7 @@ func VerifAux(name string) (st VerifAuxState) {
 	st.DefaultKey = aux.defaultKey
 	st.Methods = map[string][]VerifCombo{}
 	st.Cache = map[string][]VerifCombo{}
+	st.MethodDocTypes = map[string]string{}
 	owner := map[*slip.Combination]string{}
 	for k, m := range aux.methods {
 		list := []VerifCombo{}
@@ -95,6 +100,16 @@ func VerifAux(name string) (st VerifAuxState) {
 			list = append(list, verifCombo(c, name))
 		}
 		st.Methods[k] = list
+		if m.Doc != nil {
+			var types []string
+			for i, da := range m.Doc.Args {
+				if aux.reqCnt <= i {
+					break
+				}
+				types = append(types, da.Type)
+			}
+			st.MethodDocTypes[k] = strings.Join(types, "|")
+		}
 	}
 	for k, m := range aux.cache {
 		list := []VerifCombo{}
